@@ -1052,6 +1052,9 @@ class OptionStore:
             opt.yielding = False
         else:
             assert key.subproject is not None
+            # A new override must be saved even if it is equal to the value
+            # inherited so far.
+            changed |= key not in self.augments
             old_value = self.augments.get(key, opt.value)
             self.augments[key] = new_value
 
